@@ -935,6 +935,26 @@ func c16Tasks(tier string) []mc.Task {
 			}
 		}
 	}})
+	// many sequences: 49..52, 101 and 257 sequences (the channel that feeds the workers holds 50), 1 and 3 workers:
+	// exactly one result per sequence, each trimmed at its ORF
+	ts = append(ts, mc.Task{Name: "phase#many-sequences", Run: func(c *mc.Ctx) {
+		ref := c16Refs[0]
+		for _, n := range []int{49, 50, 51, 52, 101, 257} {
+			set := make([]string, n)
+			for i := range set {
+				set[i] = strings.Repeat("C", i%7) + ref + strings.Repeat("G", (i/7)%3)
+			}
+			for _, cpus := range []int{1, 3} {
+				for _, tr := range []bool{true, false} {
+					c16CheckPhase(c, c16Case{Kind: "phase", Seqs: set, Orf: ref, Translate: tr, Cpus: cpus})
+				}
+			}
+			c16CheckPhase(c, c16Case{Kind: "phase", Seqs: set, Translate: true, Cpus: 2})
+			if c.Expired() {
+				return
+			}
+		}
+	}})
 	// one Phaser, two runs: an earlier run that fails (a sequence too short to translate / to align), succeeds,
 	// or finds nothing, then the run that is judged
 	ts = append(ts, mc.Task{Name: "phase#reused-phaser", Run: func(c *mc.Ctx) {
@@ -1051,7 +1071,7 @@ func init() {
 		Level: "model_checking",
 		Rule: "Command line: goalign phase and phasent (one thread) on 4 sequence sets x reference given / detected x --reverse x --cut-end x genetic code x 7 sets of given flags among --len-cutoff, --match-cutoff, --match, --mismatch, --gap-open, --gap-extend, and goalign orf (--reverse) on 7 sets: the files written must be those of the library configured the same way (documented defaults for flags not given). " + "schedule part: stateless DFS over all interleavings of the real Phase goroutines (sequence producer, cpus workers, closer, consuming harness thread) with iterative preemption bounds 0..2 (quick) / 0..3 (thorough), 3 sequences x cpus 1..3 x {translate, nt}; error path with an untranslatable sequence in each position; no reference + a sequence without similarity. " +
 			"function-entry part: 2 sequences, 2 workers, translate on/off, every function entry of goalign (functions of >= 4 statements) an additional scheduling point, preemption bound 1. " +
-			"input part: LongestORF on all sequences of length <=9 (quick) / <=11 (thorough) over {A,T,G,C} plus a family of overlapping-frame sequences (upper/lower case, U) and every concatenation of up to 7 (thorough 8) codon tokens from {ATG,TAA,TGA,AAA,C} against a brute-force scan; SeqBag.LongestORF on pairs, and on sets where a short ORF behind a 5' flank of 0..12 bases stands before/after a sequence holding an ORF of 0..5 inner codons with flanks of 0..3 / 0..2 bases on either strand (ORF lengths, ORF end coordinates and sequence lengths in every order); inputs unmodified by the ORF search (both strands) and by Phase without reference on sequences holding U, lower case, X, N, ? ; a reference with codons that read differently under the three codes x translate on/off; Phase on ORF copies with 5 five-prime flanks x (exact | 18 single substitutions | reverse complement) x 3 three-prime flanks, alone / with a no-similarity sequence / in a set of 3, x translate x reverse x cut-end x genetic codes x reference supplied or not; two references in both orders against sequences that open with a 5'-truncated piece of one and contain the other verbatim (and truncated piece forward + whole ORF on the reverse strand). " +
+			"(49..52, 101 and 257 sequences through Phase with 1..3 workers: one result per sequence;) input part: LongestORF on all sequences of length <=9 (quick) / <=11 (thorough) over {A,T,G,C} plus a family of overlapping-frame sequences (upper/lower case, U) and every concatenation of up to 7 (thorough 8) codon tokens from {ATG,TAA,TGA,AAA,C} against a brute-force scan; SeqBag.LongestORF on pairs, and on sets where a short ORF behind a 5' flank of 0..12 bases stands before/after a sequence holding an ORF of 0..5 inner codons with flanks of 0..3 / 0..2 bases on either strand (ORF lengths, ORF end coordinates and sequence lengths in every order); inputs unmodified by the ORF search (both strands) and by Phase without reference on sequences holding U, lower case, X, N, ? ; a reference with codons that read differently under the three codes x translate on/off; Phase on ORF copies with 5 five-prime flanks x (exact | 18 single substitutions | reverse complement) x 3 three-prime flanks, alone / with a no-similarity sequence / in a set of 3, x translate x reverse x cut-end x genetic codes x reference supplied or not; two references in both orders against sequences that open with a 5'-truncated piece of one and contain the other verbatim (and truncated piece forward + whole ORF on the reverse strand). " +
 			"distinct_nontrivial counts distinct (case, schedule) executions plus input cases whose result was fully compared.",
 		Assumptions: []string{
 			"results flagged Removed (discarded by the cut-offs) are only counted, their framing is not compared",
